@@ -226,6 +226,10 @@ func (g *G) priors(src *ty.Val) []*ty.Val {
 		if len(tp) > 4 {
 			out = append(out, g.vg.Inst(&ty.Val{K: ty.VPtr, Elems: []*ty.Val{tp[len(tp)-1]}}))
 		}
+		// prior contents that cannot be removed key by key: a NaN key in every float-keyed map of the destination
+		if nv, changed := g.withNaNKeys(u.Elem, tp[len(tp)-1]); changed {
+			out = append(out, g.vg.Inst(&ty.Val{K: ty.VPtr, Elems: []*ty.Val{nv}}))
+		}
 	case ty.Slice:
 		n := len(src.Elems)
 		ep := g.vg.Pool(u.Elem)
@@ -240,6 +244,56 @@ func (g *G) priors(src *ty.Val) []*ty.Val {
 		out = append(out, g.vg.Inst(&ty.Val{K: ty.VMap}))
 	}
 	return out
+}
+
+// withNaNKeys returns a copy of v (a value of type t) in which every map keyed by a float type holds one more entry,
+// under a NaN key (nil maps of such a type become one-entry maps).
+func (g *G) withNaNKeys(t *ty.Ty, v *ty.Val) (*ty.Val, bool) {
+	u := g.env.Under(t)
+	c := *v
+	c.Elems = append([]*ty.Val(nil), v.Elems...)
+	changed := false
+	sub := func(i int, et *ty.Ty) {
+		if nv, ch := g.withNaNKeys(et, c.Elems[i]); ch {
+			c.Elems[i], changed = nv, true
+		}
+	}
+	switch u.K {
+	case ty.Ptr:
+		if v.K == ty.VPtr {
+			sub(0, u.Elem)
+		}
+	case ty.Slice, ty.Array:
+		if v.K == ty.VSlice || v.K == ty.VArr {
+			for i := range c.Elems {
+				sub(i, u.Elem)
+			}
+		}
+	case ty.Struct:
+		if v.K == ty.VStruct {
+			for i, f := range u.Fields {
+				sub(i, f.T)
+			}
+		}
+	case ty.Map:
+		if v.K == ty.VMap {
+			for i := 1; i < len(c.Elems); i += 2 {
+				sub(i, u.Elem)
+			}
+		}
+		if ku := g.env.Under(u.Key); ku.K == ty.Basic && (ku.B == "float64" || ku.B == "float32") {
+			w, bits := 64, uint64(0x7ff8000000000001)
+			if ku.B == "float32" {
+				w, bits = 32, 0x7fc00001
+			}
+			if v.K != ty.VMap {
+				c = ty.Val{K: ty.VMap}
+			}
+			c.Elems = append(c.Elems, &ty.Val{K: ty.VFlt, W: w, Bits: bits}, g.vg.Pool(u.Elem)[0])
+			changed = true
+		}
+	}
+	return &c, changed
 }
 
 func (g *G) emitDeepCopy() {
